@@ -214,7 +214,7 @@ func c11Options(i int) tokgen.Options {
 
 func runC11(tier, replay string) int {
 	c := core.NewCtx("C11", tier, "model_checking")
-	c.Cov["rule"] = "Valid WGSL programs are generated as token sequences with layout and roles (tokgen: typed generator over structs, constants, const_asserts, aliases, resources, helper functions incl. @must_use and pointer parameters, compute/vertex/fragment entry points, nested blocks, loops with continuing, switch; seeded by VERIF_SEED); each is accepted by the real naga and its token table (kinds, lexemes, line:column) is compared with the real lexer (wgsl.VerifTokens). TLC explores spec/Edits.tla: from every program every BreakRule(rule, site, variant) action (19 rule classes, every applicable site - exhaustive per program), checks on every mutant that it differs from the original, that the original is unchanged outside the edited window, that fresh names hit nothing and that the expectation is well formed, and prints the mutant text with the expectation (rejected; stage; position: exact first bad token / from the mutated token / within the enclosing declaration). Every mutant is replayed through naga.Parse, naga.LowerWithSource and naga.Compile and compared. A case is one (program, rule, site, variant); all are non-trivial; distinct by mutant text + rule."
+	c.Cov["rule"] = "Valid WGSL programs are generated as token sequences with layout and roles (tokgen: typed generator over structs, constants, const_asserts (operands of one integer kind and of mixed kinds: u32 / i32 / AbstractInt constants, literals, conversions, products, under ! && ||), aliases, resources, helper functions incl. @must_use and pointer parameters, compute/vertex/fragment entry points, nested blocks, loops with continuing, switch; seeded by VERIF_SEED); each is accepted by the real naga and its token table (kinds, lexemes, line:column) is compared with the real lexer (wgsl.VerifTokens). TLC explores spec/Edits.tla: from every program every BreakRule(rule, site, variant) action (19 rule classes, every applicable site - exhaustive per program), checks on every mutant that it differs from the original, that the original is unchanged outside the edited window, that fresh names hit nothing and that the expectation is well formed, and prints the mutant text with the expectation (rejected; stage; position: exact first bad token / from the mutated token / within the enclosing declaration). Every mutant is replayed through naga.Parse, naga.LowerWithSource and naga.Compile and compared. A case is one (program, rule, site, variant); all are non-trivial; distinct by mutant text + rule."
 	c.Assumef("WGSL validity rules as cited in the header of spec/Edits.tla; the generated originals are valid WGSL by construction (typed generation) and accepted by naga")
 	c.Assumef("integer division/remainder by a constant zero is only expected to be diagnosed when the dividend is a const-expression too")
 
@@ -338,6 +338,7 @@ func runC11(tier, replay string) int {
 	perRule := map[string]*tally{}
 	perWhere := map[string]int{}
 	perMode := map[string]int{}
+	perCassert := map[string]int{} // const_assert mutants by operand class / variant
 	origSeen := map[int]bool{}
 	nmut := 0
 	var tmu sync.Mutex
@@ -355,6 +356,9 @@ func runC11(tier, replay string) int {
 		t.n++
 		perWhere[m.Wh]++
 		perMode[m.Mode]++
+		if m.Rule == "const_assert" {
+			perCassert[m.S+"/"+m.variant()]++
+		}
 		nmut++
 		sample := nmut%977 == 1
 		if observed != "" {
@@ -528,6 +532,12 @@ func runC11(tier, replay string) int {
 	c.Cov["mutants_per_rule"] = rules
 	c.Cov["mutants_per_position_mode"] = perMode
 	c.Cov["sites_by_place"] = perWhere
+	c.Cov["const_assert_mutants_by_class"] = perCassert
+	for _, k := range []string{"mixed/negate", "mixed/false", "mixed/operand", "int/negate"} {
+		if perCassert[k] == 0 {
+			c.BrokenF("no const_assert mutant of class %s was enumerated (vacuous for that class)", k)
+		}
+	}
 	c.Cov["lexer_position_disagreements"] = lexFindings
 	need := []string{"undecl_var", "undecl_type", "undecl_fn", "undecl_member", "args_few", "args_many", "args_type", "must_use", "const_assert",
 		"group_only", "binding_only", "array_size", "swizzle_mix", "swizzle_width", "semicolon", "del_close", "extra_open", "no_wgsize", "div_zero"}
